@@ -57,7 +57,13 @@ def run_variant(prop, file, old, new):
         rc, ctx, new_f, old_f = run_property(prop, "quick", repo=repo, quiet=True, write=False)
     except AnalysisError as e:
         return ("analysis-error", str(e))
-    return new_f
+    # an undecided obligation is neither a detection (breaking variants) nor silence (benign variants)
+    return new_f + [_F("UNDECIDED:" + f.rule, f.construct) for f in ctx.undecided_list]
+
+
+class _F:
+    def __init__(self, rule, construct):
+        self.rule, self.construct = rule, construct
 
 
 def _work(job):
